@@ -239,8 +239,10 @@ int fstree_sort_files(fstree_t *fs, sqfs_istream_t *sortfile)
 				       ISTREAM_LINE_SKIP_EMPTY);
 		if (ret != 0) {
 			free(line);
-			if (ret < 0)
+			if (ret < 0) {
+				sqfs_perror(filename, "reading line", ret);
 				return -1;
+			}
 			break;
 		}
 
